@@ -68,6 +68,10 @@ type advCase struct {
 	// ReportK1: report a loss with the K1 signature as the known finding (C07
 	// only); other properties' parallel passes merely count it.
 	ReportK1      bool
+	// StallMC: the k-th (1-based, the initial RA is 1) multicast write of
+	// generation 1 blocks for StallFor before the packet is on the wire.
+	StallMC  int
+	StallFor time.Duration
 	StopHook      string
 	StopHookAfter time.Duration
 	StopHookDelay time.Duration
@@ -148,6 +152,16 @@ func advRun(t *testing.T, c *advCase) *advResult {
 		h.st.ReadLatency = c.FwdLat
 		h.connSetup = func(cn *vfake.Conn) {
 			cn.WriteLatency = c.WriteLat
+			if c.StallMC > 0 && cn.Gen == 1 {
+				var k atomic.Int32
+				cn.WriteLatencyOf = func(_ int, dst netip.Addr) time.Duration {
+					if dst.IsMulticast() && int(k.Add(1)) == c.StallMC {
+						h.tr.Add(vfake.Event{Kind: "stall", Val: int64(c.StallFor)})
+						return c.StallFor
+					}
+					return 0
+				}
+			}
 			if c.LinkOnDial != 0 && cn.Gen == c.LinkOnDial {
 				h.tr.Add(vfake.Event{Kind: "link_event", Msg: "queued while the connection was being set up"})
 				select {
